@@ -15,9 +15,25 @@ def load(prop):
     return importlib.import_module(f"jxsim.scenarios.{prop.lower()}")
 
 
+def _release_compiled_code():
+    """Every XLA executable maps memory regions; a long-lived worker that compiles thousands of small per-shape kernels
+    reaches the kernel's vm.max_map_count (65530) and LLVM then fails with 'Cannot allocate memory'.  Dropping JAX's
+    in-memory caches releases them (the persistent on-disk cache keeps recompilation cheap).  No effect on results."""
+    try:
+        with open("/proc/self/maps") as f:
+            n = sum(1 for _ in f)
+        if n > 25000:
+            import jax
+
+            jax.clear_caches()
+    except Exception:  # noqa: BLE001
+        pass
+
+
 def run_one(sc, program):
     from jxsim.driver import HarnessError
 
+    _release_compiled_code()
     t0 = time.time()
     try:
         res = sc.execute(program)
